@@ -80,6 +80,7 @@ class Sim(object):
         self.preemptions = 0
         self.line_stall = None       # (probability at a pre-emption point, max seconds): stall the thread there instead of yielding
         self.stalls = 0
+        self.focus_stall = None      # (function name, probability per line, max seconds)
         self.fault_counter = None    # SimNet.count, so that scheduler-level faults are reported with the network ones
         self.log_picks = log_picks
         self._prio = {}
@@ -386,6 +387,17 @@ class Sim(object):
         if t is None or t.real_ident != _thread.get_ident() or t.no_preempt:
             return
         self.line_count += 1
+        fs = self.focus_stall
+        if fs and code.co_name == fs[0] and self.line_rng.random() < fs[1]:
+            # focused stall: this run singles out one function; a thread executing it is descheduled at some of its lines
+            d = fs[2] * self.line_rng.choice((0.1, 0.3, 1.0))
+            self.stalls += 1
+            self.preemptions += 1
+            self.rec('fault', 'thread stall %s in %s %.4fs' % (t.name, fs[0], d))
+            if self.fault_counter is not None:
+                self.fault_counter('thread_stall')
+            self.block([], d, 'line-stall')
+            return
         hit = self.line_count in self.line_points
         if not hit and self.line_p:
             hit = self.line_rng.random() < self.line_p
